@@ -163,14 +163,18 @@ def wait_for_cycle(m: Model, r: Report, rid: str, cg: CallGraph, lm: LockModel, 
         raise AnalysisError(f"no {queue_attr}.get() site in {conn.qualname}")
 
 
-def address_filter(r: Report, rid: str, fn: FuncInfo, atoms_want: set[str]) -> None:
+def address_filter(r: Report, rid: str, fn: FuncInfo, atoms_want: set[str], m: Model | None = None) -> None:
     """The skip-condition over the two address fields must be a disjunction of both inequalities."""
     found = False
     for n in walk_no_nested(fn.node):
         if isinstance(n, ast.If) and isinstance(n.test, ast.BoolOp):
-            atoms = {ast.unparse(v) for v in n.test.values}
-            norm = {a.replace(" ", "") for a in atoms}
-            if norm == {a.replace(" ", "") for a in atoms_want}:
+            if m is not None:
+                norm = {m.mtext(fn, v).replace(" ", "") for v in n.test.values}
+                want = {m.mpat(fn, a).replace(" ", "") for a in atoms_want}
+            else:
+                norm = {ast.unparse(v).replace(" ", "") for v in n.test.values}
+                want = {a.replace(" ", "") for a in atoms_want}
+            if norm == want:
                 found = True
                 r.check(isinstance(n.test.op, ast.Or) and any(isinstance(s, ast.Continue) for s in ast.walk(n)), rid,
                         f"{fn.qualname}#address-filter",
